@@ -17,6 +17,8 @@ import ast
 
 from sa import core
 from sa import pat
+from sa import pycfg
+from sa import rules_trav
 from sa import tpl
 from sa import rules_df
 from sa import setalg
@@ -40,6 +42,8 @@ def check(model, rep, tier):
   rep.rule('RD-ENTRY', 'defined-on-entry over all statement predecessors', floor=6)
   rep.rule('RD-CONSUMER', 'consumer subtracts exactly defined/global/nonlocal', floor=1)
   rep.rule('RD-ASDL', 'field types', floor=5)
+  rep.rule('RD-ANNOT', 'every read is annotated, from the analyzer state of the '
+           'scope that evaluates it', floor=6)
 
   vn = model.func(RD, 'Analyzer.visit_node')
   rules_df.check_join_loop(rep, 'RD-JOIN', vn, 'prev', 'out',
@@ -192,6 +196,41 @@ def check(model, rep, tier):
             line=fi.node.lineno)
 
   _c05.asdl_rule(model, rep, 'RD-ASDL', [RD])
+
+  # ---------------------------------------------------------------- RD-ANNOT
+  rules_trav.analysis_trav(model, rep, 'RD-ANNOT', RD, 'TreeAnnotator',
+                           {('FunctionDef', 'type_params'): 'PEP 695, outside the subset'})
+  # default values are evaluated by the defining scope: they must be visited
+  # before the annotator switches to the nested function's analyzer
+  ta = model.cls(RD, 'TreeAnnotator')
+  vf = ta.methods.get('visit_FunctionDef')
+  if vf is None:
+    raise core.AnalysisError('reaching_definitions.TreeAnnotator.visit_FunctionDef not found')
+  g = pycfg.CFG(vf.node)
+  vp = vf.params()[0]
+  switch = [i for i, (k, a) in enumerate(g.nodes) if k == 'stmt' and isinstance(
+      a, ast.Assign) and core.norm(a.targets[0]) == 'self.current_analyzer' and
+            isinstance(a.value, ast.Name) and any(
+                isinstance(d, ast.Call) and core.dotted(d.func) == 'Analyzer'
+                for d in (tpl.rdefs(vf.node).reaching(a, a.value.id) or [])
+                if isinstance(d, ast.AST))]
+  dflt = []
+  for i in range(len(g.nodes)):
+    for c in pycfg.calls_at(g, i):
+      if core.dotted(c.func) in ('self.visit', 'self.visit_block', 'self.generic_visit') \
+          and c.args and core.norm(c.args[0]) in (
+              vp + '.args', vp + '.args.defaults', vp + '.args.kw_defaults'):
+        dflt.append((i, core.norm(c.args[0])))
+  ok = len(switch) == 1 and bool(dflt) and all(
+      switch[0] in g.reachable(i) and i not in g.reachable(switch[0]) for i, _ in dflt)
+  rep.check(ok, 'RD-ANNOT', '%s:defaults-under-the-defining-scope' % vf.site,
+            'the default values of a nested function are evaluated by the '
+            'defining scope when the def statement runs, but they are visited '
+            'after the annotator switched to the nested function\'s own '
+            'analyzer: a read in a default gets the (empty) definitions of the '
+            'inner function', {'visits': [t for _, t in dflt],
+                               'analyzer_switches': len(switch)},
+            line=vf.node.lineno, witness='x = 1; def h(a=x): return a')
 
   # ---------------------------------------------------------------- dependencies
   rep.depends('C05', ['CFG-STMT', 'CFG-PAIR', 'CFG-TRY', 'CFG-SCOPE', 'CFG-KEYED', 'CFG-JUMP', 'CFG-LEAVES'],
